@@ -129,6 +129,8 @@ type Program struct {
 	contractKeyCache map[*Contract]map[string]bool
 	// Memo: heap key -> ghost predicate method (a *FuncInfo in the ghost file) constraining the memo cell
 	Memo map[string]*FuncInfo
+	// Private: frame label of a heap key -> path of the package that owns it (`//@ private`)
+	Private map[string]string
 }
 
 var DefaultPatterns = []string{"./src/common", "./src/peers", "./src/crypto/keys", "./src/crypto", "./src/hashgraph", "./src/node", "./src/node/state", "./src/net", "./src/proxy", "./src/proxy/inmem", "./src/proxy/socket/app", "./src/proxy/socket/babble"}
@@ -280,6 +282,15 @@ func Load(repo string, patterns []string) (*Program, error) {
 		}
 	}
 	NewProgramState(prog)
+	prog.Private = map[string]string{}
+	for pkgPath, pc := range prog.PC {
+		for _, k := range pc.Private {
+			prog.Private[k] = pkgPath
+		}
+	}
+	if err := prog.checkPrivate(); err != nil {
+		return nil, err
+	}
 	prog.Memo = map[string]*FuncInfo{}
 	for pkgPath, pc := range prog.PC {
 		p := prog.Pkgs[pkgPath]
@@ -330,6 +341,13 @@ func (p *Program) ContractFor(fn *types.Func) *Contract {
 	}
 	sig := fn.Type().(*types.Signature)
 	if sig.Recv() == nil {
+		// plain function of an external package: `iface func (__static *alias.T) F(...)` (the receiver is a
+		// placeholder that only says which package F belongs to)
+		for k, c := range p.IfaceC {
+			if c.RecvName == "__static" && strings.HasPrefix(k, fn.Pkg().Path()+":") && strings.HasSuffix(k, "."+fn.Name()) {
+				return c
+			}
+		}
 		return nil
 	}
 	rt := sig.Recv().Type()
@@ -343,6 +361,72 @@ func (p *Program) ContractFor(fn *types.Func) *Contract {
 	for k, c := range p.IfaceC {
 		if strings.HasPrefix(k, fn.Pkg().Path()+":") && strings.HasSuffix(k, "."+fn.Name()) {
 			return c
+		}
+	}
+	return nil
+}
+
+
+// checkPrivate: a private key is exempt from the frame obligations of other packages' functions; that is sound only
+// if those packages can neither name nor touch the location. Unexported fields are protected by the language; for
+// the rest this scan rejects, in every other loaded repository package: a use of a private (exported) field, an
+// expression of a private map type, and a mention of a private ghost field in a contract.
+func (p *Program) checkPrivate() error {
+	if len(p.Private) == 0 {
+		return nil
+	}
+	for pkgPath, pkg := range p.Pkgs {
+		if pkg.TypesInfo == nil {
+			continue
+		}
+		for se, sl := range pkg.TypesInfo.Selections {
+			if sl.Kind() != types.FieldVal {
+				continue
+			}
+			v, ok := sl.Obj().(*types.Var)
+			if !ok {
+				continue
+			}
+			rt := sl.Recv()
+			if pt, ok := rt.Underlying().(*types.Pointer); ok {
+				rt = pt.Elem()
+			}
+			if structOf(rt) == nil {
+				continue
+			}
+			label := frameLabel(fieldKeyName(rt, v))
+			if owner := p.Private[label]; owner != "" && owner != pkgPath {
+				return fmt.Errorf("%s: field %s is declared private by %s but used in %s", p.Fset.Position(se.Pos()), label, owner, pkgPath)
+			}
+		}
+		for x, tv := range pkg.TypesInfo.Types {
+			mt, ok := tv.Type.(*types.Map)
+			if !ok {
+				continue
+			}
+			for _, k := range mapKeyNames(mt) {
+				if owner := p.Private[frameLabel(k)]; owner != "" && owner != pkgPath {
+					return fmt.Errorf("%s: map type %s is declared private by %s but used in %s", p.Fset.Position(x.Pos()), mt, owner, pkgPath)
+				}
+			}
+		}
+	}
+	for label, owner := range p.Private {
+		if !strings.HasPrefix(label, "ghost:") {
+			continue
+		}
+		name := label[strings.Index(label, ".")+1:]
+		for pkgPath, pc := range p.PC {
+			if pkgPath == owner {
+				continue
+			}
+			for _, c := range pc.Contracts {
+				for _, cl := range c.allClauses() {
+					if strings.Contains(cl.Src, "G_"+name+"(") {
+						return fmt.Errorf("%s: ghost field %s is declared private by %s but mentioned in a contract of %s", cl.Line, label, owner, pkgPath)
+					}
+				}
+			}
 		}
 	}
 	return nil
